@@ -44,7 +44,7 @@ func verifC14Storage(warm int) {
 // verifC14File: FileRuleList.RetrieveRule on a shared file handle and read buffer.
 func verifC14File(bufLen int) {
 	// bufLen 8: a line spans two reads; bufLen 16: a line arrives in one read
-	l := &FileRuleList{ID: 1, File: verifFile(verifC14Text), buffer: make([]byte, bufLen)}
+	l := verifNewFileList(1, verifFile(verifC14Text), bufLen)
 	verifShared()
 	off := []int{0, 9}[verifChoice("op", 2)]
 	_, _ = l.RetrieveRule(off)
@@ -53,7 +53,7 @@ func verifC14File(bufLen int) {
 
 // verifC14StorageFile: the storage on top of a file-backed list (cache miss goes to the file).
 func verifC14StorageFile(bufLen int) {
-	l := &FileRuleList{ID: 1, File: verifFile(verifC14Text), buffer: make([]byte, bufLen)}
+	l := verifNewFileList(1, verifFile(verifC14Text), bufLen)
 	s, _ := NewRuleStorage([]RuleList{l})
 	verifShared()
 	off := []int32{0, 9}[verifChoice("op", 2)]
